@@ -18,7 +18,8 @@ for D in "$@"; do
   res=""
   for c in $checks; do
     log="$D/eval_$c.log"
-    "$ROOT/tools/mutant_run.sh" "$WT" "$c" "${SEED_EVAL_TIER:-quick}" >"$log" 2>&1; rc=$?
+    . "$ROOT/tools/scale.sh"
+    VERIF_SCALE=${SEED_EVAL_SCALE:-$(quick_scale "$c")} "$ROOT/tools/mutant_run.sh" "$WT" "$c" "${SEED_EVAL_TIER:-quick}" >"$log" 2>&1; rc=$?
     nviol=$(grep -c "^VIOLATION" "$log")
     first=$(grep -m1 -E "violation in check" "$log" | sed 's/"/\\"/g' | cut -c1-300)
     res="$res{\"check\":\"$c\",\"rc\":$rc,\"violation_lines\":$nviol,\"first\":\"$first\"},"
